@@ -38,6 +38,7 @@ type HarnessCfg struct {
 	Timers      bool
 	Twin        bool // reachability twin: final vassert(false) must be violated
 	QuickInstances []int
+	ThoroughInstances []int
 	Doc       string
 	File      string
 	PkgPath   string
@@ -252,6 +253,10 @@ func (l *Loaded) parseDirective(h *HarnessCfg, sp *ssa.Package, line string) {
 	case "quick-instances":
 		for _, x := range f[1:] {
 			h.QuickInstances = append(h.QuickInstances, atoi(x))
+		}
+	case "thorough-instances":
+		for _, x := range f[1:] {
+			h.ThoroughInstances = append(h.ThoroughInstances, atoi(x))
 		}
 	case "tier":
 		h.Tier = f[1]
